@@ -39,7 +39,7 @@ ASSUMPTIONS = [
 
 CONTENT_POOL = [1e-7, 1e22, -0.0, 0.1, 123456789.125, 'true', 'null', '~', 'yes', '12', '1e3', '=notformula',
                 "it's", 'a: b', '- x', '{a}', '[1]', '#hash', 'multi\nline', 'tab\there', 'é漢😀', ' lead', 'trail ',
-                '"q"', "'", '', True, False, None, 0, -3, 2 ** 40]
+                '"q"', "'", '', True, False, None, 0, -3, 2 ** 40, 'next\x85line', 'del\x7fc1\x9b']
 
 DRIVER = '''import json, sys
 sys.path.insert(0, %(verif)r)
@@ -68,6 +68,15 @@ def _json_astral(case):
     return case.get('call') == 'persist' and a[:1] == ['json'] and any(
         isinstance(v, str) and any(ord(ch) > 0xFFFF for ch in v)
         for (_, v, _) in case.get('workbook', []))
+
+
+@known_predicate('C03-yaml-nel')
+def _yaml_nel(case):
+    """yml format (and the pickle, which is built from the yml text) + a text cell containing NEL (U+0085): the
+    YAML reader folds it into a blank"""
+    a = case.get('args') or []
+    return case.get('call') == 'persist' and a[:1] in (['yml'], ['pkl']) and any(
+        isinstance(v, str) and '\x85' in v for (_, v, _) in case.get('workbook', []))
 
 
 @known_predicate('C03-iterative-history-dependence')
@@ -224,6 +233,8 @@ def cmp_doc(ctx, case, what, mdoc, data, wb):
             for (a, iv), (_, mv) in zip(icells, mcells):
                 is_code = isinstance(mv, str) and mv.startswith('=')
                 ok = (iv == mv) if is_code or isinstance(iv, str) else same(mv, canon(iv))
+                if not ok and isinstance(mv, str) and '\x85' in mv and iv == mv.replace('\x85', ' '):
+                    continue        # known finding C03-yaml-nel: the parsed yml file has folded the NEL into a blank
                 if not ok:
                     ctx.divergence(dict(case, leg=what, addr=a), iv, mv,
                                    'Persist.cell_value = entry of the saved file (code / constant)')
@@ -480,7 +491,7 @@ def run(ctx):
         if corr is None:
             ctx.count(('corr-skip', k), kind='corr-skip:outside the model', nontrivial=False)
         else:
-            corr.update(case=case, k=k, place=place, astral=_json_astral(case))
+            corr.update(case=case, k=k, place=place, astral=_json_astral(case) or _yaml_nel(case))
             if ext != 'pkl':
                 try:
                     corr['doc'] = parse_doc(fname, ext)
@@ -610,7 +621,7 @@ def run(ctx):
             for i in subset:
                 comp.evaluate(wb.nodes[i]['addr'])
             corr = corr_capture(comp, wb, ext, False, pre=subset)
-            if corr is None or _json_astral(dict(case, call='persist')):
+            if corr is None or _json_astral(dict(case, call='persist')) or _yaml_nel(dict(case, call='persist')):
                 ctx.count(('corr-skip', 'p', k2), kind='corr-skip:outside the model', nontrivial=False)
                 continue
             comp.to_file(stem, file_types=(ext,))
